@@ -1,7 +1,7 @@
 # Per-property claims; edited as checks are built. Executed by gen_manifest.py.
 PENDING = "check not built yet in this round (planned in DESIGN.md); not claimed until it runs clean on the unchanged tree"
 
-for _p in ["C04","C05","C11"]:
+for _p in ["C11"]:
     na(_p, PENDING)
 
 na("C06", "quantifies over every byte prefix of a runtime tape and over archive/tar's behaviour on arbitrary bytes plus a termination argument for the resynchronisation loop; no sound dataflow/typestate rule in reach decides any clause of it (the only structural ingredient, earlier records are never touched, is claimed under C05)")
@@ -64,3 +64,12 @@ claim("C18",
       "Decides table agreement per format key: the type each Parse* arm produces is identical to the type the matching Encrypt/Decrypt/Sign/Verify arm asserts, each generator/parser arm hands the password to a key-wrapping call of the crypto module, and conditional wrapping is matched by conditional unwrapping. Rejection of wrong passwords/keys is left to the crypto libraries.",
       "switch-arm sibling agreement with types.Identical on produced vs asserted types + parameter-to-crypto-call flow per arm",
       "DESIGN.md §3 C18")
+
+claim("C04",
+      "Decides units and formula agreement of tape positions at every call site, field store and result (record vs block axis, content vs last-known vs current, by provenance), that every byte-offset expression in pkg/recovery normalises to 512*(RecordSize*record+block) or one of its legitimate parts, that re-derivations use one block count for quotient and remainder, and that the position is advanced between two indexed members. The numbers themselves are not evaluated.",
+      "provenance classification of integer arguments (units) + syntactic polynomial normalisation (sibling agreement) + go/cfg must-dataflow",
+      "DESIGN.md §3 C04")
+claim("C05",
+      "Decides the append-only discipline structurally: who may open, truncate or write the drive (path and handle provenance, O_APPEND, overwrite provenance), that Delete/Move finish all lookups and preparation before the first WriteHeader, that the trailer logic sees dirty=true whenever a header was written, and that freshly built and wrapper headers are PAX. That an independent tar reader iterates the result is not decided.",
+      "who-may-touch provenance rules + go/cfg success-edge domination and may-dataflow (trailer flag) + constant/flag provenance",
+      "DESIGN.md §3 C05")
